@@ -34,6 +34,7 @@ theorem facts_envParsing : Generated.facts.envParsing = true := by decide
 theorem facts_recursionDiscipline : Generated.facts.recursionDiscipline = true := by decide
 theorem facts_lockDiscipline : Generated.facts.lockDiscipline = true := by decide
 theorem facts_allocationDiscipline : Generated.facts.allocationDiscipline = true := by decide
+theorem facts_typedAllocation : Generated.facts.typedAllocation = true := by decide
 theorem facts_rollback : Generated.facts.rollbackOnFailedBuild = true := by decide
 theorem facts_buildProtocol : Generated.facts.buildProtocol = true := by decide
 theorem facts_bufferContract : Generated.facts.bufferContract = true := by decide
